@@ -30,7 +30,7 @@ def run(ctx):
                        "the real code on one generated or mutated input, judged by TLC; non-trivial = the call accepted the input or "
                        "ended in an event; distinct = distinct (site, projection of the accepted description, event)")
     ctx.assumptions += [
-        "hang = one call burns more CPU than 1.5 s + 0.3 ms per piece (phase B) / 150 s (parser phase) or is silent for 60/240 s",
+        "hang = one call burns more CPU than 1 s (quick; 1.5 s thorough) + 0.3 ms per piece, and again more than 4x that when re-run alone (piece construction, start) / 150 s (parser phase), or is silent for 60/240 s",
         "runaway allocation = live heap above 1 GiB (piece construction, start) / 3 GiB (parser) or allocated bytes above 16 MiB + 256 x input",
         "piece construction and Start are run on representatives of every distinct accepted projection (PL, N, lengths, padding); "
         "in the quick tier the projections with a negative or >= 2^62 length are a seeded sample",
@@ -69,7 +69,7 @@ def run(ctx):
     scr = ctx.path("drv", "x")
     r = ctx.run_drv(drv, ["-mode", "parent", "-cases", cases_path, "-out", tp, "-scratch", os.path.dirname(scr), "-seed", str(ctx.seed),
                           "-mut", str(ctx.pick(1, 2)), "-workers", str(ctx.pick(8, 10)), "-reps", str(ctx.pick(1, 2)),
-                          "-maxbad", str(ctx.pick(10, 40)), "-cpums", "1500", "-rejsample", str(ctx.pick(20, 20))],
+                          "-maxbad", str(ctx.pick(6, 40)), "-cpums", str(ctx.pick(1000, 1500)), "-rejsample", str(ctx.pick(20, 20))],
                     timeout=ctx.pick(1800, 3600))
     stats = json.loads(r.stdout.strip().splitlines()[-1])
     ctx.extra["driver"] = stats
